@@ -87,7 +87,7 @@ def frame_obligations(ctx: Ctx, name: str, allow_out: Sequence[Any] = (), info: 
                 bad.append(f"{eff[2]} on {ctx.protected[eff[1]]}")
         elif kind == "setattr":
             tgt = eff[1]
-            if isinstance(tgt, SymTensor) and tgt.storage.origin.startswith("input:"):
+            if isinstance(tgt, SymTensor) and any(tgt is v for v in ctx.inputs.values()):
                 bad.append(f"setattr {eff[2]} on input tensor {tgt.name}")
             if id(tgt) in ctx.protected:
                 bad.append(f"setattr {eff[2]} on {ctx.protected[id(tgt)]}")
